@@ -149,10 +149,10 @@ def validateWithPermissions (E : Ext) (env : Env) (t : PTy) (perms : List String
 def hasDefault (env : Env) (t : PTy) : Bool :=
   t.flags.nullable || match t with
   | .void _ => true
-  | .struct _ cls | .tree _ cls => match env.struct? cls with
+  | .struct _ cls => match env.struct? cls with
     | some s => (s.levels.flatMap (·.fields)).all fun f => f.attrNullable || f.dflt.isSome
     | none => false
-  | _ => false
+  | _ => false          -- StructTree.has_default is False: the root of a tree is not a value by itself
 
 /-- `validator.get_default()` (only called when `has_default()`). -/
 def getDefault (t : PTy) : PyVal :=
